@@ -11,7 +11,7 @@
 static cholmod_sparse* flatten_ndarray_to_sparse(struct ndsparse *array,
     size_t nrow, size_t ncol, cholmod_common* c);
 cholmod_sparse* calc_penalty(uint64_t* nsplines, double *knots, uint32_t ndim, uint32_t i,
-    uint32_t order, uint32_t porder, int mono, cholmod_common* c);
+    uint32_t order, uint32_t porder, uint32_t monodim, cholmod_common* c);
 
 int
 glamfit_complex(const struct ndsparse* data, const double* weights, const double* const* coords,
@@ -303,7 +303,7 @@ glamfit_complex(const struct ndsparse* data, const double* weights, const double
 
 cholmod_sparse*
 add_penalty_term(uint64_t* nsplines, double* knots, uint32_t ndim, uint32_t dim, uint32_t order,
-   uint32_t porder, double scale, int mono, cholmod_sparse* penalty,
+   uint32_t porder, double scale, uint32_t monodim, cholmod_sparse* penalty,
    cholmod_common* c)
 {
 	cholmod_sparse* penalty_tmp, * penalty_chunk;
@@ -313,7 +313,7 @@ add_penalty_term(uint64_t* nsplines, double* knots, uint32_t ndim, uint32_t dim,
 		return (penalty);		
 
 	penalty_chunk = calc_penalty(nsplines, knots, ndim, dim, order,
-	    porder, mono, c);
+	    porder, monodim, c);
 	penalty_tmp = penalty;
 
 	/* Add each chunk to the big matrix, scaling by smooth */
@@ -414,8 +414,10 @@ divided_diffs(int order, int porder, int j, double* knots, double* out)
 
 cholmod_sparse*
 calc_penalty(uint64_t* nsplines, double* knots, uint32_t ndim, uint32_t dim, uint32_t order,
-    uint32_t porder, int mono, cholmod_common* c)
+    uint32_t porder, uint32_t monodim, cholmod_common* c)
 {
+	/* monodim is the index of the monotonic dimension, if there is one */
+	int mono = (dim == monodim);
 	cholmod_sparse* finitediff, * fd_trans, * DtD, * result;
 	cholmod_sparse* tmp, * tmp2;
 	cholmod_triplet* trip;
@@ -473,13 +475,50 @@ calc_penalty(uint64_t* nsplines, double* knots, uint32_t ndim, uint32_t dim, uin
 
 	/* Next take kronecker products to form the full P */
 
+	/*
+	 * kronecker_product() multiplies the stored entries only, which for
+	 * matrices stored as their upper triangle is right as long as all
+	 * factors but one are diagonal. With a monotonic dimension other
+	 * than this one there are two factors which are not, so everything
+	 * is expanded to unsymmetric storage first and the product is
+	 * converted back afterwards.
+	 */
+	int expand = (monodim < ndim && monodim != dim);
+	if (expand) {
+		cholmod_sparse *DtD_full = cholmod_l_copy(DtD, 0, 1, c);
+		cholmod_l_free_sparse(&DtD, c);
+		DtD = DtD_full;
+	}
+
 	tmp = NULL;
 	result = NULL;
 	for (i = 0; i < ndim; i++) {
-		tmp2 = (i == dim) ? DtD : cholmod_l_speye(
-		    nsplines[i], nsplines[i],
-		    CHOLMOD_REAL, c);
-		tmp2->stype = 1; /* The identity matrix is always symmetric. */
+		if (i == dim) {
+			tmp2 = DtD;
+		} else if (i == monodim) {
+			/*
+			 * The unknowns along the monotonic dimension are the
+			 * increments t of the T-spline basis, with
+			 * coefficients c = T t. A penalty on the surface in
+			 * another dimension, |(D x I) c|^2, is therefore
+			 * t'(DtD x T'T)t: with the identity here instead,
+			 * the increments rather than the surface would be
+			 * smoothed.
+			 */
+			cholmod_sparse *tril, *tril_trans;
+
+			tril = cholmod_tril(nsplines[i], c);
+			tril_trans = cholmod_l_transpose(tril, 1, c);
+			tmp2 = cholmod_l_ssmult(tril_trans, tril,
+			    0 /* unsymmetric storage */, 1, 0, c);
+			cholmod_l_free_sparse(&tril, c);
+			cholmod_l_free_sparse(&tril_trans, c);
+		} else {
+			tmp2 = cholmod_l_speye(nsplines[i], nsplines[i],
+			    CHOLMOD_REAL, c);
+			/* The identity matrix is always symmetric. */
+			tmp2->stype = expand ? 0 : 1;
+		}
 
 		if (result == NULL) {
 			result = tmp2;
@@ -490,6 +529,12 @@ calc_penalty(uint64_t* nsplines, double* knots, uint32_t ndim, uint32_t dim, uin
 		cholmod_l_free_sparse(&result, c);
 		cholmod_l_free_sparse(&tmp2, c);
 
+		result = tmp;
+	}
+
+	if (expand) {
+		tmp = cholmod_l_copy(result, 1, 1, c);
+		cholmod_l_free_sparse(&result, c);
 		result = tmp;
 	}
 
